@@ -169,6 +169,34 @@ static std::string DoRseq(const std::vector<Sx>& a) {
   return "HARNESS-ERROR kind";
 }
 
+// rcopy KIND HEX K HEX2: K single-byte reads, then the reader object is COPIED (copy constructor) and the rest is read from
+// the copy; then a fresh reader over HEX2 is ASSIGNED to the used object (copy assignment) and everything is read from it.
+// A copy continues where the original stands; an assigned-over reader is the reader it was assigned from.
+template <typename R>
+static std::string RCopy(const std::vector<std::uint8_t>& d1, std::size_t k, const std::vector<std::uint8_t>& d2) {
+  HeapBytes a(d1), b(d2);
+  R r{a.p, a.n};
+  std::string first, rest, again;
+  for (std::size_t i = 0; i < k; i++) { std::uint8_t x = 0; if (!r.Read(&x)) break; first += Hex(&x, 1); }
+  R c{r};
+  while (true) { std::uint8_t x = 0; if (!c.Read(&x)) break; rest += Hex(&x, 1); if (rest.size() > 2 * (a.n + 4)) break; }
+  std::string obs = std::to_string(c.remaining()) + "/" + std::to_string(c.capacity());
+  R fresh{b.p, b.n};
+  r = fresh;
+  std::string obs2 = std::to_string(r.remaining()) + "/" + std::to_string(r.capacity());
+  while (true) { std::uint8_t x = 0; if (!r.Read(&x)) break; again += Hex(&x, 1); if (again.size() > 2 * (b.n + 4)) break; }
+  return "first=" + (first.empty() ? "-" : first) + " rest=" + (rest.empty() ? "-" : rest) + " obs=" + obs +
+         " rearmed=" + obs2 + " again=" + (again.empty() ? "-" : again);
+}
+static std::string DoRCopy(const std::vector<Sx>& a) {
+  const std::string& kind = a.at(1).a;
+  std::vector<std::uint8_t> d1 = UnHex(a.at(2).a), d2 = UnHex(a.at(4).a);
+  std::size_t k = ParseInt<std::size_t>(a.at(3).a);
+  if (kind == "buf") return RCopy<nop::BufferReader>(d1, k, d2);
+  if (kind == "ped") return RCopy<nop::PedanticBufferReader>(d1, k, d2);
+  return "HARNESS-ERROR kind";
+}
+
 // ------------------------------------------------------------------ writers --
 template <typename W>
 static std::string OneWrite(W& w, const std::string& c) {
@@ -546,6 +574,7 @@ int main() {
     try {
       const std::string& op = a.at(0).a;
       if (op == "rseq") out = DoRseq(a);
+      else if (op == "rcopy") out = DoRCopy(a);
       else if (op == "wseq") out = DoWseq(a);
       else if (op == "sip") out = DoSip(a);
       else if (op == "sipnames") out = DoSipNames();
